@@ -421,7 +421,6 @@ func (i *interpreter) selectStmt(fr *frame, instr *ssa.Select) value {
 	return r
 }
 
-
 // fireAfter delivers the tick of one pending time.After channel; false if none is pending.
 func (i *interpreter) fireAfter() bool {
 	var pending []*schan
